@@ -729,7 +729,12 @@ func (s *UtxoStore) ScriptAddressBalance(tx mwdb.ReadTransaction, scripts map[st
 			continue
 		}
 
-		confs := syncHeight - cred.block.Height + 1
+		// A read transaction takes no snapshot: a block may be committed after syncHeight was read. A
+		// coin above that height has no confirmations yet (syncHeight-height+1 would wrap).
+		confs := uint64(0)
+		if syncHeight >= cred.block.Height {
+			confs = syncHeight - cred.block.Height + 1
+		}
 		if confs >= uint64(minConf) {
 			balance.Total, err = balance.Total.Add(cred.amount)
 			if err != nil {
@@ -835,12 +840,17 @@ func (s *UtxoStore) ScriptAddressUnspents(tx mwdb.ReadTransaction, scriptAddrs m
 		// pending inputs are keyed by the outpoint alone (see insertUnminedInputs), not by the unspent key
 		cred.flags.SpentByUnmined = existsRawUnminedInput(nsUnminedInputs, canonicalOutPoint(&op.Hash, op.Index)) != nil
 
+		// see ScriptAddressBalance: no confirmations for a coin above the height read earlier
+		confs := uint64(0)
+		if syncHeight >= block.Height {
+			confs = syncHeight - block.Height + 1
+		}
 		item := &Credit{
 			OutPoint:      op,
 			BlockMeta:     block,
 			Amount:        cred.amount,
 			Maturity:      cred.maturity,
-			Confirmations: uint32(syncHeight - block.Height + 1),
+			Confirmations: uint32(confs),
 			Flags:         cred.flags,
 			ScriptHash:    cred.scriptHash,
 		}
